@@ -16,13 +16,53 @@ mod drivers;
 pub struct Official;
 pub struct Intermediary;
 pub struct Named;
-pub mod download { pub mod versions_manifest { #[derive(Debug, Clone, PartialEq)] pub struct MinecraftVersion(pub String); } }
+/// Stand-ins for the downloader of the binary crate: src/build.rs refers to these types in its (never called) async `build`;
+/// only `build_inner` is driven by the harness.
+pub mod download {
+	use anyhow::{bail, Result};
+	use dukebox::storage::FileJar;
+	use dukenest::nest::Nests;
+	use quill::tree::mappings::Mappings;
+	use crate::version_graph::VersionEntry;
+	use crate::{Intermediary, Official};
+	pub mod versions_manifest {
+		#[derive(Debug, Clone, PartialEq)] pub struct MinecraftVersion(pub String);
+		pub struct VersionsManifest;
+	}
+	pub struct Download { pub url: String }
+	pub struct Downloads { pub client: Option<Download>, pub server: Option<Download> }
+	pub struct VersionDetails { pub downloads: Downloads }
+	pub struct Versions { pub versions: Vec<String> }
+	pub struct Versioning { pub versions: Versions }
+	pub struct MavenMetadata { pub versioning: Versioning }
+	pub struct Downloader;
+	impl Downloader {
+		pub(crate) async fn version_details(&self, _m: &versions_manifest::VersionsManifest, _v: VersionEntry<'_>) -> Result<VersionDetails> { bail!("stub") }
+		pub(crate) async fn calamus_v2(&self, _v: VersionEntry<'_>) -> Result<Mappings<2, (Official, Intermediary)>> { bail!("stub") }
+		pub(crate) async fn mc_libs(&self, _m: &versions_manifest::VersionsManifest, _v: VersionEntry<'_>) -> Result<Vec<FileJar>> { bail!("stub") }
+		pub(crate) async fn download_nests(&self, _v: VersionEntry<'_>) -> Result<Option<Nests<Official>>> { bail!("stub") }
+		pub(crate) async fn get_jar(&self, _url: &str) -> Result<FileJar> { bail!("stub") }
+		pub(crate) async fn get_maven_metadata_xml(&self, _url: &str) -> Result<MavenMetadata> { bail!("stub") }
+	}
+}
 #[allow(dead_code, deprecated, unused)]
 #[path = "/repo/src/version_graph.rs"]
 mod version_graph;
 #[allow(dead_code, deprecated, unused)]
 #[path = "/repo/src/specialized_methods/mod.rs"]
 mod specialized_methods;
+/// src/build.rs pasted into a module of the harness, so that the private `build_inner` can be called.
+#[allow(dead_code, deprecated, unused)]
+mod build_incl {
+	include!("/repo/src/build.rs");
+	pub(crate) fn verif_build_inner(
+		calamus_v2: Mappings<2, (Official, Intermediary)>, libraries: Vec<FileJar>, version_graph: &VersionGraph, version: VersionEntry<'_>,
+		nests: Option<Nests<Official>>, main_jar: &impl Jar,
+	) -> Result<(Vec<u8>, Vec<u8>)> {
+		let r = build_inner("0+build.verif".to_owned(), calamus_v2, libraries, version_graph, version, nests, main_jar)?;
+		Ok((r.merged_feather.data, r.unmerged_feather.data))
+	}
+}
 
 use std::io::{BufRead, BufReader, BufWriter, Write};
 use std::panic::{catch_unwind, AssertUnwindSafe};
